@@ -349,12 +349,13 @@ impl<Db: Database> StorageManager<Db> {
         // cache miss, read direct from db
         self.increment_metric(METRIC_GET);
 
+        let read_generation = self.cache.as_ref().map(|cache| cache.write_generation());
         let record = self
             .tic_toc(METRIC_READ_TIME, self.db.get::<St>(id))
             .await?;
-        if let Some(cache) = &self.cache {
-            // cache the result
-            cache.put(&record).await;
+        if let (Some(cache), Some(generation)) = (&self.cache, read_generation) {
+            // cache the result, unless a write went through the cache while we were reading
+            cache.fill(std::slice::from_ref(&record), generation).await;
         }
         Ok(record)
     }
@@ -399,13 +400,14 @@ impl<Db: Database> StorageManager<Db> {
         if !key_set.is_empty() {
             // these are items to be retrieved from the backing database (not in pending transaction or in the object cache)
             let keys = key_set.into_iter().collect::<Vec<_>>();
+            let read_generation = self.cache.as_ref().map(|cache| cache.write_generation());
             let mut results = self
                 .tic_toc(METRIC_READ_TIME, self.db.batch_get::<St>(&keys))
                 .await?;
 
-            // cache the db returned results
-            if let Some(cache) = &self.cache {
-                cache.batch_put(&results).await;
+            // cache the db returned results, unless a write went through the cache while we were reading
+            if let (Some(cache), Some(generation)) = (&self.cache, read_generation) {
+                cache.fill(&results, generation).await;
             }
 
             records.append(&mut results);
@@ -455,6 +457,7 @@ impl<Db: Database> StorageManager<Db> {
         username: &AkdLabel,
         flag: ValueStateRetrievalFlag,
     ) -> Result<ValueState, StorageError> {
+        let read_generation = self.cache.as_ref().map(|cache| cache.write_generation());
         let maybe_db_state = match self
             .tic_toc(METRIC_READ_TIME, self.db.get_user_state(username, flag))
             .await
@@ -487,8 +490,10 @@ impl<Db: Database> StorageManager<Db> {
 
         if let Some(state) = maybe_db_state {
             // cache the item for future access
-            if let Some(cache) = &self.cache {
-                cache.put(&DbRecord::ValueState(state.clone())).await;
+            if let (Some(cache), Some(generation)) = (&self.cache, read_generation) {
+                cache
+                    .fill(&[DbRecord::ValueState(state.clone())], generation)
+                    .await;
             }
 
             Ok(state)
